@@ -59,6 +59,7 @@ fn main() {
         }
     }
     real::install_panic_hook();
+    real::start_watchdog(20, prop.clone(), out.clone());
     let t0 = Instant::now();
     let mut ctx = Ctx {
         driver: Driver::spawn(&driver_path),
